@@ -1052,7 +1052,7 @@ def _edit2(m, step, labels):
 _led_kinds = st.sampled_from(['sparse', 'sparse', 'targeted', 'targeted', 'faces', 'faces', 'dense', 'dyadic', 'dyadic', 'near', 'near', 'binedge'])
 _LED_SYSTEMS = {k: g3.systems(kind=k) for k in ('sparse', 'targeted', 'faces', 'dense', 'dyadic', 'near', 'binedge')}
 _led_op = st.fixed_dictionaries({
-    'op': st.sampled_from(['fn', 'fn', 'ctor', 'method', 'lazy', 'lazy', 'load', 'load', 'load', 'rebuild', 'mutin', 'mutin', 'mutout', 'mutout', 'again']),
+    'op': st.sampled_from(['fn', 'fn', 'ctor', 'method', 'lazy', 'lazy', 'lazy', 'load', 'load', 'load', 'rebuild', 'mutin', 'mutin', 'mutout', 'mutout', 'again']),
     'sys': st.integers(0, 1),
     'fac': st.sampled_from([0.5, 0.75, 1.0, 1.0, 1.0, 1.25, 1.5]),
     'sizes': st.one_of(st.none(), st.none(), st.tuples(st.integers(1, 6), st.integers(1, 4)).map(list)),
@@ -1287,16 +1287,16 @@ CLAUSES = [
                       'scale_large': 0.04, 'exact_scaled': 0.025,
                       # cross-pollination round (below half of the lowest share seen at seeds 1-4, runs cut short by the wall budget included)
                       'kind_near': 0.047, 'near_cut': 0.065, 'near_cut_le_1e-6': 0.037, 'near_cut_inside': 0.023, 'near_cut_outside': 0.043,
-                      'near_cut_image': 0.017, 'near_coincident': 0.024, 'near_face_le_1e-6': 0.03, 'decades': 0.008, 'tiny_tilt': 0.02,
+                      'near_cut_image': 0.017, 'near_coincident': 0.024, 'near_face_le_1e-6': 0.03, 'decades': 0.005, 'tiny_tilt': 0.02,
                       'sym': 0.1, 'sym_negdiag': 0.047, 'sym_upper': 0.01, 'sym_mixed': 0.02, 'lefthanded': 0.038,
-                      'pos_bigendian': 0.036, 'pos_narrow_int': 0.0034, 'pos_narrow_float': 0.007, 'cutoff_narrow_float': 0.04,
+                      'pos_bigendian': 0.036, 'pos_narrow_int': 0.0034, 'pos_narrow_float': 0.0045, 'cutoff_narrow_float': 0.04,
                       'cutoff_narrow_int': 0.0028, 'sizes_narrow_int': 0.094},
            desc='every list equals the independent reference {j != i : shortest of the 27 candidates < cutoff}; strictly '
                 'ascending, no self entry, symmetric, coord = length = first column; for every input form'),
     Clause('sizes', oracle_sizes, sizes_cases, quick=1700, thorough=55000,
            min_share={'nt': 0.15, 'grew_twice': 0.1, 'size_one': 0.2, 'pos_readonly_stored': 0.09,
                       'scale_1': 0.25, 'scaled': 0.2, 'scale_1e-10': 0.06, 'scale_le_1e-8': 0.11, 'scale_large': 0.04,
-                      'pos_bigendian': 0.03, 'sizes_narrow_int': 0.1},
+                      'pos_bigendian': 0.02, 'sizes_narrow_int': 0.1},
            desc='identical lists for default and drawn initialsize/deltasize (both, and each alone), and for the default again afterwards'),
     Clause('file', oracle_file, file_cases, quick=1700, thorough=38000,
            min_share={'nt': 0.3, 'ragged': 0.15, 'has_empty_row': 0.25, 'two_digit_ids': 0.08, 'pos_readonly_stored': 0.07,
@@ -1313,12 +1313,12 @@ CLAUSES = [
            min_share={'nt': 0.17, 'replaced_after_read': 0.28, 'replaced_other_natoms': 0.15, 'read_before_first_step': 0.25,
                       'op_load': 0.15, 'op_edit': 0.13, 'op_selfload': 0.06, 'unjudged_step': 0.09, 'pos_readonly_stored': 0.12,
                       'mixed_scales': 0.25, 'scaled': 0.3, 'scale_1e-10': 0.1, 'scale_le_1e-8': 0.19, 'scale_large': 0.08,
-                      'pos_bigendian': 0.075, 'sizes_narrow_int': 0.15},
+                      'pos_bigendian': 0.05, 'sizes_narrow_int': 0.15},
            desc='one NeighborList object through build / load / dump-load / in-place system edits, read in varying orders: after every '
                 'step it equals the independent reference for what it was last given; an untouched second list stays as it was'),
     Clause('ledger', oracle_ledger, ledger_cases, quick=1100, thorough=30000,
-           min_share={'nt': 0.3, 'ledger': 0.4, 'ledger_mixed_counts': 0.14, 'ledger_ge_4': 0.18, 'ledger_after_caller_change': 0.1,
-                      'loaded_different_alive': 0.021, 'unread_then_mutated': 0.023, 'again_after_overwrite': 0.085, 'overwrote_array': 0.028,
+           min_share={'nt': 0.3, 'ledger': 0.4, 'ledger_mixed_counts': 0.14, 'ledger_ge_4': 0.18, 'ledger_after_caller_change': 0.07,
+                      'loaded_different_alive': 0.021, 'unread_then_mutated': 0.012, 'again_after_overwrite': 0.085, 'overwrote_array': 0.028,
                       'overwrote_object': 0.06, 'edit_handed': 0.038, 'edit_handed_aliased': 0.032, 'repeated_call': 0.053, 'op_rebuild': 0.042,
                       'read_at_the_end': 0.14, 'pos_bigendian': 0.07, 'pos_readonly_stored': 0.1, 'scaled': 0.27},
            desc='everything handed out by nlist() / NeighborList / System.neighborlist / a file for two systems is judged by the reference when first '
